@@ -123,6 +123,8 @@ Additions for the prediction code (common.copy_array_with_control_treatments_set
                       the stacked matrix after it).  Only a plain assignment `x = e` may bind such a variable, at the alternative
                       that IS the type of e (no coercion); every other binder (loop target, state call, `with`, tuple target)
                       compares the declared type as a whole and so refuses it.  Reads use the type of the binding in scope.
+  [f for a, b in L]   a comprehension whose target is a tuple of names, over a list of tuples of that arity (e.g. a prim for
+                      `zip(...)`), without a condition: map over a tuple pattern; res_map_all when f may raise
   cfg["assign_effects"]  a template starting with `!` denotes a `result state` (the store may raise, e.g. numpy's
                       `a[mask, ...] = 0.0` with a mask of the wrong length): `dor state <- template;`
 """
@@ -367,6 +369,8 @@ class Tr:
             return "(fold_left (fun %s %s => dict_set %s %s %s) %s [])" % (d, g.target.id, d, kk, vv, l), ("dictof", vt)
         if isinstance(e, ast.ListComp):
             # [f(x) for x in L if P]  ->  map (fun x => f) (filter (fun x => P) L); neither f nor P may raise
+            if len(e.generators) == 1 and not e.generators[0].is_async and self.tuple_comp_target(e.generators[0].target):
+                return self.tuple_comp(e, env, hoist)
             if len(e.generators) != 1 or e.generators[0].is_async or not isinstance(e.generators[0].target, ast.Name):
                 raise Unsupported("comprehension other than [f(x) for x in L if P]: " + ast.unparse(e))
             g = e.generators[0]
@@ -432,6 +436,34 @@ class Tr:
                 raise Unsupported("chained comparison: " + ast.unparse(e))
             return self.compare(e.left, e.ops[0], e.comparators[0], env, hoist), ("bool",)
         raise Unsupported("expression: " + ast.unparse(e))
+
+    def tuple_comp_target(self, t):
+        return isinstance(t, ast.Tuple) and len(t.elts) >= 2 and all(isinstance(x, ast.Name) for x in t.elts)
+
+    def tuple_comp(self, e, env, hoist):
+        """[f(a, b, ..) for a, b, .. in L] with L a list of tuples of that arity and no condition: map / res_map_all
+        (element by element from the left, the first exception aborts) over a tuple pattern"""
+        g = e.generators[0]
+        if g.ifs:
+            raise Unsupported("comprehension with a tuple target and a condition: " + ast.unparse(e))
+        l, lt = self.expr(g.iter, env, hoist)
+        names = [x.id for x in g.target.elts]
+        if lt[0] != "list" or lt[1][0] != "tuple" or len(lt[1][1]) != len(names) or len(set(names)) != len(names):
+            raise Unsupported("comprehension with a tuple target over a %s" % (lt,))
+        env2 = dict(env)
+        for n, t in zip(names, lt[1][1]):
+            env2[n] = t
+        inner = []
+        f, ft = self.expr(e.elt, env2, inner)
+        pat = "'(" + ", ".join(names) + ")"
+        if not inner:
+            return "(map (fun %s => %s) %s)" % (pat, f, l), ("list", ft)
+        if self.M["type"] != "result":
+            raise Unsupported("comprehension element that may raise under a non-default monad: " + ast.unparse(e))
+        n = self.new("l")
+        body = "".join("dor %s <- %s; " % nt for nt in inner) + "Ok " + f
+        hoist.append((n, "res_map_all (fun %s => %s) %s" % (pat, body, l)))
+        return n, ("list", ft)
 
     def kwcall(self, e, env, hoist):
         """cfg["kwcalls"]: F(k1=e1, ..., kn=en) -> the callee's template over its full parameter list; a parameter the call
